@@ -1,82 +1,48 @@
-(* C15, stage 3 (begun): the typedef production, for simple types and no annotation list. *)
-From PVIdl Require Import Comb Ast Parser Print Proofs.Total Proofs.RoundTok Proofs.RoundTy.
+(* C15, stage 3: the typedef production, every layout. *)
+From PVIdl Require Import Comb Ast Parser Print Proofs.Total Proofs.RoundTok Proofs.RoundPath Proofs.RoundAnn Proofs.RoundTy
+  Proofs.RoundKit.
 From Coq Require Import ZifyN ZifyNat ZifyBool.
 From Coq Require String.
 Import String.StringSyntax.
 Open Scope nat_scope.
-
-(* what may follow a declaration that ends with an optional separator: not a blank start, not a word character, not
-   a separator, not an annotation list *)
-Definition declfollow (lf : nat) (k : list byte) : Prop :=
-  nb k = true /\ hd_sat (fun b => negb (identch b)) k = true /\
-  hd_sat (fun b => negb (bmem b set_list_separator)) k = true /\ is_perr (p_annotations lf k).
 
 Section Items.
 Variable lf : nat.
 Variable whole : list byte.
 Hypothesis Hlf : length whole < lf.
 
-Lemma sep_head (f : byte -> bool) s k : f x2c = true -> f x3b = true -> hd_sat f k = true -> hd_sat f (pr_sep s k) = true.
-Proof. intros H1 H2 Hk. destruct s as [|[|] bl]; cbn [pr_sep sep_byte hd_sat]; auto. Qed.
-
-Lemma sep_noann s k : is_perr (p_annotations lf k) -> is_perr (p_annotations lf (pr_sep s k)).
-Proof. intros H. destruct s as [|[|] bl]; cbn [pr_sep sep_byte]; auto; unfold p_annotations; apply pbind_err; exact I. Qed.
-
 Theorem rt_typedef df c k :
-  wf_typedef c = true -> simple_type (ctd_type c) = true -> ctd_anns c = None -> type_depth (ctd_type c) < df ->
-  declfollow lf k -> sfx (pr_typedef c k) whole ->
+  wf_typedef c = true -> type_depth (ctd_type c) < df ->
+  stop k = true -> (typedef_ends_word c = true -> wstop k = true) -> sfx (pr_typedef c k) whole ->
   p_typedef lf df (pr_typedef c k) = POk k (erase_typedef c).
 Proof.
-  intros Hw Hs Ha Hd [Hk1 [Hk2 [Hk3 Hk4]]] S.
-  destruct c as [b1 t b2 alias b3 anns sep]. cbn [ctd_anns ctd_type] in *. subst anns.
-  unfold wf_typedef, pr_typedef, erase_typedef in *. cbn [ctd_b1 ctd_type ctd_b2 ctd_alias ctd_b3 ctd_anns ctd_sep pr_oanns] in *.
-  apply andb_prop in Hw; destruct Hw as [Hw W10]. apply andb_prop in Hw; destruct Hw as [Hw W9].
-  apply andb_prop in Hw; destruct Hw as [Hw W8]. apply andb_prop in Hw; destruct Hw as [Hw W7].
-  apply andb_prop in Hw; destruct Hw as [Hw W6]. apply andb_prop in Hw; destruct Hw as [Hw W5].
-  apply andb_prop in Hw; destruct Hw as [Hw W4]. apply andb_prop in Hw; destruct Hw as [Hw W3].
-  apply andb_prop in Hw; destruct Hw as [W1 W2].
-  apply negb_true_iff in W2, W5, W7.
-  assert (N1 : b1 <> []) by (destruct b1; discriminate).
-  assert (N2 : b2 <> []) by (destruct b2; discriminate).
-  unfold p_typedef. change kw_typedef with (txt "typedef"). rewrite tag_ok. cbn [pbind].
-  rewrite (rt_blank lf b1 _ W1 N1 (type_head_nb t _ W3 Hs)) by (eapply sfx_lt; [exact Hlf|sfx_of S]). cbn [pbind].
-  (* the type *)
-  assert (Hrest : hd_sat (fun b => negb (identch b)) (pr_blank b3 (pr_sep sep k)) = true).
-  { apply blank_then; [exact W8| |].
-    - intros b Hb. now rewrite (blank_start_not_identch b Hb).
-    - intros _. apply sep_head; auto. }
-  assert (F : tyfollow lf (type_ends_word t) (pr_blank b2 (alias ++ pr_blank b3 (pr_sep sep k)))).
-  { exists b2, (alias ++ pr_blank b3 (pr_sep sep k)). split; [reflexivity|]. split; [exact W4|].
-    split; [now apply ident_nb|].
-    destruct alias as [|h tl] eqn:Ea; [discriminate|]. rewrite <- Ea in *.
-    split.
-    { apply (container_word_err kw_cpp_type (fun i => do i, _ <- p_blank lf i ;; p_literal lf i) alias _ eq_refl W6 Hrest W7).
-      intros c0 r Hc. apply pbind_err. now apply identch_not_blank. }
-    assert (Hh : (is_alpha h || is_underscore h) = true).
-    { rewrite Ea in W6. cbn [is_ident] in W6. apply andb_prop in W6. tauto. }
-    rewrite Ea. cbn [app].
-    split; [|split].
-    - apply tag_hd_ne. destruct (Byte.eqb h x2e) eqn:E; [|reflexivity]. apply byte_dec_bl in E. subst h. discriminate.
-    - unfold p_annotations. apply pbind_err. apply tag_hd_ne.
-      destruct (Byte.eqb h x28) eqn:E; [|reflexivity]. apply byte_dec_bl in E. subst h. discriminate.
-    - intros ->. contradiction. }
-  rewrite (rt_type lf whole Hlf df t _ Hd W3 Hs F) by (sfx_of S). cbn [pbind].
-  rewrite (rt_blank lf b2 _ W4 N2 (ident_nb alias _ W6)) by (eapply sfx_lt; [exact Hlf|sfx_of S]). cbn [pbind].
-  rewrite (rt_ident alias _ W6 Hrest). cbn [pbind].
-  assert (Nsep : nb (pr_sep sep k) = true) by (apply sep_head; auto).
-  destruct (oblank lf whole Hlf b3 _ W8 Nsep ltac:(sfx_of S)) as [o ->]. cbn [pbind].
-  rewrite (opt_err (p_annotations lf)) by (now apply sep_noann). cbn [pbind].
-  destruct (rt_sep lf sep k W10 Hk1 Hk3 ltac:(eapply sfx_lt; [exact Hlf|sfx_of S])) as [o2 ->]. reflexivity.
+  intros Hw Hd Hk He S.
+  destruct c as [b1 t b2 alias b3 anns sep].
+  unfold wf_typedef, pr_typedef, erase_typedef, typedef_ends_word in *.
+  cbn [ctd_b1 ctd_type ctd_b2 ctd_alias ctd_b3 ctd_anns ctd_sep] in *. bsplit Hw.
+  unfold p_typedef. tg kw_typedef (txt "typedef").
+  mbk lf whole Hlf S ltac:(now apply type_head_nb).
+  assert (F : tyfollow lf (type_ends_word t) (pr_blank b2 (alias ++ pr_blank b3 (pr_oanns anns (pr_sep sep k))))).
+  { apply (tyfollow_name lf whole Hlf); try assumption; try (sfx_of S).
+    - intros ->. discriminate.
+    - hdt.
+    - hdt.
+    - intros ->. hdt. }
+  rewrite (rt_type lf whole Hlf df t _ Hd ltac:(assumption) F) by (sfx_of S). cbn [pbind].
+  mbk lf whole Hlf S ltac:(now apply ident_nb).
+  rewrite (rt_ident alias) by (assumption || hdt). cbn [pbind].
+  obk lf whole Hlf S ltac:(hdt).
+  oanns_step lf whole Hlf S. osep_step lf whole Hlf S.
+  rewrite unwrap_oanns. reflexivity.
 Qed.
 
 End Items.
 
-(* non-vacuity: "typedef/**/map<string,listing> required_t ;" followed by a newline and the next declaration *)
+(* non-vacuity: "typedef/**/map<string,listing> cpp_type(a='b');" -- the alias is the word cpp_type *)
 Example rt_typedef_example :
   let c := mkCTypedef [BBlock []] (CType (CTMap None [] [] (CType (CTBase BString) None) [] false []
                                      (CType (CTPath (mkCPath (txt "listing") [])) None) []) None)
-                      [BWs (txt " ")] (txt "required_t") [BWs (txt " ")] None (SepSome true []) in
-  let k := x0a :: txt "typedef i8 T" in
+                      [BWs (txt " ")] (txt "cpp_type") [] (Some [mkCAnn [] (txt "a") [] [] (mkLit false (txt "b")) [] SepNone]) (SepSome true []) in
   wf_typedef c = true /\ p_typedef 100 5 (pr_typedef c []) = POk [] (erase_typedef c) /\
-  pr_typedef c [] = txt "typedef/**/map<string,listing> required_t ;".
+  pr_typedef c [] = txt "typedef/**/map<string,listing> cpp_type(a='b');".
 Proof. vm_compute. repeat split. Qed.
